@@ -5,6 +5,7 @@ CONSTANTS
   MaxEvents = 3
   MaxPerBlock = 2
   MaxReorgs = 1
+  MaxRestarts = 1
   MaxFail = 1
   ChunkSizes = {1, 2, 10}
   FinalityAfterNotices = TRUE
@@ -12,5 +13,5 @@ INIT Init
 NEXT Next
 VIEW view
 INVARIANTS TypeOK StoredFinalisedCanonical BufferSane ChainSane
-PROPERTIES SetHeadExact OnlySetHeadWrites Monotone
+PROPERTIES SetHeadExact OnlySetHeadWrites Monotone RestartIsNoOp
 CHECK_DEADLOCK FALSE
